@@ -970,7 +970,7 @@ class StructuredTypeUnmarshaller(AbstractUnmarshaller[_ST]):
         - [`typelib.serdes.itervalues`][]
     """
 
-    __slots__ = ("fields_by_var",)
+    __slots__ = ("fields_by_var", "required")
 
     def __init__(self, t: type[_ST], context: ContextT, *, var: str | None = None):
         """Constructor.
@@ -982,6 +982,8 @@ class StructuredTypeUnmarshaller(AbstractUnmarshaller[_ST]):
         """
         super().__init__(t, context, var=var)
         self.fields_by_var = self._fields_by_var()
+        # A TypedDict "constructor" is just `dict`: it will not complain about missing keys.
+        self.required = frozenset(getattr(t, "__required_keys__", ()))
 
     def _fields_by_var(self):
         fields_by_var = {}
@@ -1011,4 +1013,7 @@ class StructuredTypeUnmarshaller(AbstractUnmarshaller[_ST]):
         decoded = serdes.load(val)
         fields = self.fields_by_var
         kwargs = {f: fields[f](v) for f, v in serdes.iteritems(decoded) if f in fields}
+        if not self.required <= kwargs.keys():
+            missing = sorted(self.required - kwargs.keys())
+            raise ValueError(f"Missing required keys {missing!r} for {self.t!r}: {val!r}")
         return self.t(**kwargs)
